@@ -640,7 +640,12 @@ class BaseOrchestrator(ABC):
         """
         while missing_invocations > 0:
             if invocation_id := self.app.broker.retrieve_invocation():
-                if invocation_id not in blocking_invocation_ids:
+                # A listed id is skipped only while it is still held: if it was handed back meanwhile
+                # (e.g. its thread could not be started and it was rerouted) its message counts again
+                if (
+                    invocation_id not in blocking_invocation_ids
+                    or self.get_invocation_status(invocation_id).is_available_for_run()
+                ):
                     invocation_status = self.get_invocation_status(invocation_id)
                     if invocation_status.is_available_for_run():
                         invocation = self.app.state_backend.get_invocation(
